@@ -24,6 +24,25 @@ type Case struct {
 	BigEndian bool    `json:"big_endian"`
 	Orders    []bool  `json:"orders"` // per-element byte-order choices for the reference writer (true = XDR), cycled
 	Neg       string  `json:"neg,omitempty"`
+	// Huge n > 0: G is replaced (at run time, so that the case stays a few bytes) by one point array of n points -
+	// 65 000 to 300 000, around the sizes at which a reader that grows its chunks would change its step - as a line string
+	// (HugeWrap 0), the second ring of a polygon (1), or a member of a collection (2)
+	Huge     int `json:"huge,omitempty"`
+	HugeWrap int `json:"huge_wrap,omitempty"`
+}
+
+func hugeG(n, wrap int) vkit.GJ {
+	pts := make([]vkit.P2, n)
+	for i := range pts {
+		pts[i] = vkit.MkP(float64(i)+0.125*float64(i%7), -0.25*float64(i))
+	}
+	switch wrap {
+	case 1:
+		return vkit.GJ{T: "Polygon", Rings: [][]vkit.P2{pts[:4], pts}}
+	case 2:
+		return vkit.GJ{T: "GeometryCollection", Geoms: []vkit.GJ{{T: "Point", Pts: pts[:1]}, {T: "MultiLineString", Rings: [][]vkit.P2{pts[:2], pts}}}}
+	}
+	return vkit.GJ{T: "LineString", Pts: pts}
 }
 
 func gen(t *rapid.T) Case {
@@ -35,6 +54,10 @@ func gen(t *rapid.T) Case {
 		MaxMembers: rapid.SampledFrom([]int{1, 2, 3, 6}).Draw(t, "maxmem"), MaxPts: rapid.SampledFrom([]int{1, 2, 3, 8}).Draw(t, "maxpts"),
 		Coord: vkit.CoordAnyBits()}
 	c.G = vkit.GenGJ(t, o)
+	if c.Neg == "" && rapid.IntRange(0, 149).Draw(t, "huge") == 77 {
+		c.Huge = rapid.OneOf(rapid.IntRange(65530, 65545), rapid.IntRange(130040, 130060), rapid.IntRange(131065, 131080), rapid.IntRange(140000, 300000)).Draw(t, "hugen")
+		c.HugeWrap = rapid.IntRange(0, 2).Draw(t, "hugewrap")
+	}
 	if c.Neg == "" && rapid.IntRange(0, 39).Draw(t, "long") == 0 {
 		// point arrays longer than one internal read block (the decoder reads long arrays in chunks): lengths around
 		// multiples of 1024 and a few arbitrary long ones, alone or inside multi-geometries / collections
@@ -109,6 +132,10 @@ func hasSpecial(g vkit.GJ) bool {
 }
 
 func run(c Case) (v vkit.Verdict) {
+	if c.Huge > 0 && c.Neg == "" {
+		c.G = hugeG(c.Huge, c.HugeWrap)
+		v.Class("array_of_65000_to_300000_points")
+	}
 	var bo binary.ByteOrder = binary.LittleEndian
 	if c.BigEndian {
 		bo = binary.BigEndian
@@ -265,7 +292,8 @@ func TestProp(t *testing.T) {
 		Rule: "rapid-generated geometries of the seven encodable types (collections nested to depth<=4, member counts 0-6, " +
 			"coordinates from arbitrary 64-bit patterns; 2.5% of the cases carry a point array of 500-5000 points with lengths concentrated around multiples of 1024, the decoder's read block; under 1% are wide containers - a collection, multi-line-string or multi-polygon of 1000-12000 members, concentrated around 10000, optionally ending in a small nested collection) x encoder byte order x per-element byte-order list for an independent " +
 			"OGC WKB writer; non-trivial = nesting depth>=2, or an empty member, or a NaN/Inf/-0/subnormal coordinate, or mixed " +
-			"per-element byte orders; distinct = distinct FNV-64 hash of the case JSON",
+			"per-element byte orders; distinct = distinct FNV-64 hash of the case JSON" +
+			" Round 10: one case in 150 is a single point array of 65 530 to 300 000 points (around 65 536, 130 048, 131 072 and up to 300 000) as a line string, a polygon ring or inside a collection.",
 		Assumptions: []string{"the reference serializer in props/c05 follows the OGC simple-features WKB layout", "nil and empty slices are identified"},
 		Gen:         gen,
 		Run:         run,
